@@ -34,7 +34,8 @@ def run(ck):
     ck.proof = vf.prove("Properties_C17")
     q = ck.quick(); fails = []
     runs = 0
-    for backend in ("serial", "sse", "avx2"):
+    aux = getattr(ck, "aux", False)     # run as a dependency of another property: the scalar build, no sanitizer
+    for backend in (("serial",) if aux else ("serial", "sse", "avx2")):
         exe, out = build([], "h_conc_" + backend, backend)
         if not exe:
             ck.violation("h_conc does not compile (%s)" % backend, {"compiler_output": out[-3000:]}, tag="build_" + backend, no_input=True); continue
@@ -47,8 +48,9 @@ def run(ck):
             rc, o, e = vf.run_io([exe, str(T), str(R)], "", timeout=600); runs += 1
             if rc != 0 or "CHANGED" in o or "CORRUPTED" in o or any(x.split("=")[1].split("/")[0] != x.split("/")[1] for x in o.split() if x.startswith("ok=")):
                 fails.append(("threads vs sequential (%s build)" % backend, "h_conc %d %d" % (T, R), (o.strip() + " " + e[-300:])[:400]))
-    tx, out = build(["-fsanitize=thread", "-g"], "h_conc_tsan")
-    if not tx:
+    tx, out = (True, "") if aux else build(["-fsanitize=thread", "-g"], "h_conc_tsan")
+    if aux: pass
+    elif not tx:
         ck.violation("h_conc does not compile with ThreadSanitizer", {"compiler_output": out[-3000:]}, tag="build_tsan", no_input=True)
     else:
         for T, R in ((4, 2), (8, 1)) + (() if q else ((16, 5),)):
